@@ -238,6 +238,9 @@ class OvfProfile(StoreProfile):
             return o
         r = rng.random()
         paths = sorted(st.paths)
+        if st.f and len(st.f) < 4 and rng.random() < 0.05:
+            # a twin on the same mesh whose subregions have the same names and one border moved by a cell
+            return {"op": "mkvariant", "src": rng.choice(sorted(st.f)), "out": out, "change": rng.choice(["subs_moved", "subs_moved", "subs"]), "which": rng.randrange(3), "ax": rng.randrange(3)}
         if cfg["sweep"] and not st.extra_done("sweep") and rng.random() < 0.3:
             small = [s for s, (_, f) in st.f.items() if math.prod(f.mesh.n) <= 40]
             if small:
@@ -442,7 +445,7 @@ class Hdf5Profile(StoreProfile):
             return o
         r = rng.random()
         if st.f and len(st.f) < 4 and rng.random() < 0.08:
-            return {"op": "mkvariant", "src": rng.choice(sorted(st.f)), "out": out, "change": rng.choice(["tol", "tol", "corners", "corners", "bc", "subs", "unit"]), "tol": rng.choice([1e-6, 1e-9, 1e-3])}
+            return {"op": "mkvariant", "src": rng.choice(sorted(st.f)), "out": out, "change": rng.choice(["tol", "tol", "corners", "corners", "bc", "subs", "subs_moved", "subs_moved", "unit"]), "tol": rng.choice([1e-6, 1e-9, 1e-3]), "which": rng.randrange(3), "ax": rng.randrange(4)}
         if paths and rng.random() < 0.05:
             # read - the caller changes the mesh it got - read again (the same or another path)
             rel = rng.choice(paths)
@@ -553,6 +556,8 @@ class VtkProfile(StoreProfile):
                 o["vdims"] = rng.choice(VTK_VDIMS[o["nvdim"]])
             return o
         r = rng.random()
+        if st.f and len(st.f) < 4 and rng.random() < 0.05:
+            return {"op": "mkvariant", "src": rng.choice(sorted(st.f)), "out": out, "change": rng.choice(["subs_moved", "subs_moved", "subs"]), "which": rng.randrange(3), "ax": rng.randrange(3)}
         odd = [s for s, (_, f) in st.f.items() if f.mesh.region.ndim != 3]
         if paths and r < 0.07:
             if not odd and len(st.f) < 4:
